@@ -72,6 +72,10 @@ type rigStream struct {
 
 	rdBusy bool
 	rdCh   chan ioRes
+	// "readall": the stream is drained with io.Copy, which uses Stream.WriteTo when there is one (as common.Copy in
+	// RouteTCP and serveSession does) and a Read loop otherwise; the chunks it hands over are queued here
+	copyMu sync.Mutex
+	copied [][]byte
 	got    int64
 	rdErr  error // first error returned by Read
 	rdErrs int
@@ -557,6 +561,15 @@ func (r *rig) poll() error {
 	}
 	r.mu.Unlock()
 	for _, s := range all {
+		s.copyMu.Lock()
+		chunks := s.copied
+		s.copied = nil
+		s.copyMu.Unlock()
+		for _, c := range chunks {
+			if err := r.onRead(s, ioRes{len(c), nil, c}); err != nil {
+				return err
+			}
+		}
 		if s.rdBusy {
 			select {
 			case res := <-s.rdCh:
@@ -729,6 +742,35 @@ func (r *rig) startRead(s *rigStream, bufSize int) {
 		n, err := st.Read(buf)
 		s.rdFin.Store(true)
 		ch <- ioRes{n, err, buf}
+	}()
+}
+
+type rigSink struct{ s *rigStream }
+
+func (k rigSink) Write(p []byte) (int, error) {
+	k.s.copyMu.Lock()
+	k.s.copied = append(k.s.copied, append([]byte(nil), p...))
+	k.s.copyMu.Unlock()
+	return len(p), nil
+}
+
+// startReadAll drains the stream with io.Copy until it ends.
+func (r *rig) startReadAll(s *rigStream) {
+	if s.rdBusy || r.cfg.Unordered {
+		return
+	}
+	s.rdBusy = true
+	s.rdFin.Store(false)
+	s.rdCh = make(chan ioRes, 1)
+	ch := s.rdCh
+	st := s.st
+	go func() {
+		_, err := io.Copy(rigSink{s}, st)
+		if err == nil {
+			err = io.EOF // io.Copy swallows EOF; the stream itself reports the broken-stream error
+		}
+		s.rdFin.Store(true)
+		ch <- ioRes{0, err, nil}
 	}()
 }
 
@@ -929,6 +971,10 @@ func (r *rig) start(op rigOp) error {
 	case "read":
 		if s := r.stream(op.Side, op.S); s != nil {
 			r.startRead(s, op.N)
+		}
+	case "readall":
+		if s := r.stream(op.Side, op.S); s != nil {
+			r.startReadAll(s)
 		}
 	case "close":
 		if s := r.stream(op.Side, op.S); s != nil {
